@@ -1026,23 +1026,24 @@ func firstWords(s string) string {
 	return s
 }
 
-// ackBytes: the acknowledgement as the counterparty wrote it, for a wire shape (several spellings per shape)
+// ackBytes: the acknowledgement as the counterparty wrote it, for a wire shape, in its canonical JSON encoding (what
+// `Acknowledgement.Acknowledgement()` produces; ibc-go >= 8.6.1 rejects every other spelling)
 func (e *env) ackBytes(shape string) []byte {
 	pick := func(xs ...string) []byte { return []byte(xs[e.rng.Intn(len(xs))]) }
 	switch shape {
 	case "ok":
 		return channeltypes.NewResultAcknowledgement([]byte{1}).Acknowledgement()
 	case "okempty":
-		return pick(`{"result":""}`, `{"result":null}`)
+		return []byte(`{"result":""}`)
 	case "err":
 		if e.rng.Intn(3) == 0 {
 			return pick(`{"error":"x"}`, `{"error":"ABCI code: 1: error handling packet: see events for details"}`)
 		}
 		return channeltypes.NewErrorAcknowledgement(fmt.Errorf("rejected")).Acknowledgement()
 	case "errempty":
-		return pick(`{"error":""}`, `{"error":null}`)
+		return []byte(`{"error":""}`)
 	case "unset":
-		return pick(`{}`, `null`)
+		return []byte(`{}`)
 	}
 	return pick(`not json`, `{"foo":"bar"}`, `[]`, `{"error":`)
 }
